@@ -27,6 +27,13 @@ COMMON_ASSUMPTIONS = [
 ]
 
 
+def _passive(res: CheckResult) -> None:
+    """The repository's own tests, passively traced and validated (code -> specification)."""
+    import os
+    from icv import passive
+    passive.passive_unit(res, os.environ.get("ICV_REPO", "/repo"))
+
+
 @check("C01")
 def c01(res: CheckResult) -> None:
     ic = C.load_icontract()
@@ -65,6 +72,7 @@ def c02(res: CheckResult) -> None:
     def_unit(res, "inherited postconditions incl. overrides under foreign decorators: calls judged against the "
                   "effective conjunction for all truth assignments", list(DF.fam_foreign_hier(res.tier, rng)), ic,
              verdicts=True, rng=rng)
+    _passive(res)
 
 
 @check("C08")
@@ -100,6 +108,7 @@ def c16(res: CheckResult) -> None:
     call_unit(res, "several falsy contracts (groups, stacks, levels) x all truth assignments",
               list(F.fam_order(res.tier, rng)), ic, require_outcomes=["Violation", "ErrInst", "ErrFact"])
     random_unit(res, "random programs beyond the exhaustive bounds", list(F.fam_random(res.tier, rng, "order")), ic)
+    _passive(res)
 
 
 @check("C03")
